@@ -19,6 +19,8 @@ import (
 
 const verifDir = "/verif"
 
+var extraTrusted *string
+
 func main() {
 	if len(os.Args) < 2 {
 		fmt.Fprintln(os.Stderr, "usage: nsqvc check|lock|dump ...")
@@ -33,6 +35,7 @@ func main() {
 	outDir := fs.String("out", filepath.Join(verifDir, "out"), "scratch output directory")
 	noReplay := fs.Bool("noreplay", false, "skip replay of counterexamples")
 	verbose := fs.Bool("v", false, "verbose")
+	extraTrusted = fs.String("trusted", "", "additional directory with *.spec files (trusted library contracts)")
 	fs.Parse(os.Args[2:])
 	switch cmd {
 	case "check":
@@ -69,7 +72,11 @@ func hasProp(ps []string, p string) bool {
 }
 
 func setup(repo string) (*Engine, error) {
-	e, err := newEngine(repo, filepath.Join(verifDir, "lib", "trusted"))
+	var extra []string
+	if extraTrusted != nil && *extraTrusted != "" {
+		extra = append(extra, *extraTrusted)
+	}
+	e, err := newEngine(repo, filepath.Join(verifDir, "lib", "trusted"), extra...)
 	if err != nil {
 		return nil, err
 	}
